@@ -1,7 +1,7 @@
 (* C18 — GraphQL names map lawfully to Python names.
    Property theorems only; proofs live in Proofs/NamesP.v. *)
 From Coq Require Import List String Ascii Bool.
-From AC Require Import Base.Strs Model.Names Proofs.NamesP.
+From AC Require Import Base.Strs Model.Names Model.Scopes Proofs.NamesP Proofs.ScopesP.
 Import ListNotations.
 Local Open Scope string_scope.
 
@@ -99,4 +99,58 @@ Example C18_guard_satisfiable :
   l2s (process_name (FL true true true) (s2l "HTTPServer2_fooBar")) = "http_server_2_foo_bar" /\
   l2s (process_name (FL true true true) (s2l "modelDump")) = "model_dump_" /\
   l2s (process_name (FL false false false) (s2l "None")) = "None_".
+Proof. vm_compute. repeat split. Qed.
+
+(* ==== scope level: the two scopes in which the generator itself keeps colliding names apart
+        (variables of one operation: arguments.py; fields of one input: input_types.py) ==== *)
+
+(* the `while <bad name>: name += "_"` loop always ends on a name that is not bad, provided the bad names
+   are finitely many (the model's fuel is never what stops it) *)
+Theorem C18_fresh_loop_ends : forall bad B, (forall x, bad x = true -> In x B) ->
+  forall fuel n, cnt B n < fuel -> bad (fresh_go fuel bad n) = false.
+Proof. exact fresh_go_ok. Qed.
+Print Assumptions C18_fresh_loop_ends.
+
+(* variables: for EVERY list of GraphQL names (equal ones included) and every reserved set, the parameter
+   names are pairwise distinct, one per variable, outside the reserved names, valid identifiers, no keywords,
+   and keep the letters and digits of the original.  No guard: the identifier repair closed F18 here. *)
+Theorem C18_variables_lawful : forall snake reserved names,
+  Forall (fun n => gql_name n = true) names ->
+  let out := var_names snake reserved names in
+  NoDup out /\ List.length out = List.length names /\
+  (forall x, In x out -> ~ In x reserved) /\
+  Forall (fun p => py_identifier p = true /\ iskeyword p = false) out /\
+  Forall2 (fun n p => all_us n = false ->
+             map to_lower (filter is_alnum p) = map to_lower (filter is_alnum n)) names out.
+Proof. exact var_names_lawful. Qed.
+Print Assumptions C18_variables_lawful.
+
+(* input fields: pairwise distinct Python names, none of them the GraphQL name of another field (by-name and
+   by-alias population never cross), never a keyword or a pydantic attribute, letters and digits kept;
+   validity as an identifier still under the F18 guard of process_name *)
+Theorem C18_input_fields_lawful_partial : forall snake names,
+  Forall (fun n => gql_name n = true) names ->
+  let out := input_field_names snake names in
+  NoDup out /\
+  Forall2 (fun n p => (In p names -> p = n) /\
+                      iskeyword p = false /\ mem_chars p pydantic_reserved = false /\
+                      (g_c18 (input_flags snake) n = true -> py_identifier p = true) /\
+                      (all_us n = false ->
+                         map to_lower (filter is_alnum p) = map to_lower (filter is_alnum n)))
+          names out.
+Proof. exact input_names_lawful. Qed.
+Print Assumptions C18_input_fields_lawful_partial.
+
+Theorem C18_input_wire_names : forall snake names, map wire_name (input_decls snake names) = names.
+Proof. exact input_decls_wire_names. Qed.
+Print Assumptions C18_input_wire_names.
+
+(* regression of the repaired scopes (/repo 7f3b78b, 70630f0, bec4417, a4347c6) *)
+Example C18_scope_regression :
+  map l2s (var_names true (map s2l ["self"; "kwargs"; "query"]) (map s2l ["fooBar"; "foo_bar"; "_1"; "class"; "class_"; "self"; "query"]))
+    = ["foo_bar"; "foo_bar_"; "_1"; "class_"; "class__"; "self_"; "query_"] /\
+  map l2s (input_field_names true (map s2l ["fooBar"; "foo_bar"; "class"; "class_"; "copy"]))
+    = ["foo_bar_"; "foo_bar"; "class__"; "class_"; "copy_"] /\
+  map l2s (input_field_names false (map s2l ["_a"; "a"; "a_"]))
+    = ["a__"; "a"; "a_"].
 Proof. vm_compute. repeat split. Qed.
